@@ -144,6 +144,7 @@ pub fn check_i(sa: bool, a: &[u64], sb: bool, b: &[u64]) -> Verdict {
         must_panic("rem_euclid(0)", || x.rem_euclid(&y))?;
         must_panic("div_rem_euclid(0)", || x.div_rem_euclid(&y))?;
         is_none("BigInt::checked_div", || x.checked_div(&y))?;
+        is_none("<BigInt as CheckedDiv>::checked_div", || CheckedDiv::checked_div(&x, &y))?;
         is_none("BigInt::checked_div_euclid", || x.checked_div_euclid(&y))?;
         is_none("BigInt::checked_rem_euclid", || x.checked_rem_euclid(&y))?;
         is_none("BigInt::checked_div_rem_euclid", || x.checked_div_rem_euclid(&y))?;
@@ -183,6 +184,11 @@ pub fn check_i(sa: bool, a: &[u64], sb: bool, b: &[u64]) -> Verdict {
     match must_return("checked_div", || x.checked_div(&y))? {
         Some(v) => ctx(eq_bi(&v, &tq), "checked_div")?,
         None => return Err("BigInt::checked_div returned None for a non-zero divisor".into()),
+    }
+    // the trait method is a separate impl from the inherent one (generic callers reach only the trait)
+    match must_return("CheckedDiv::checked_div", || CheckedDiv::checked_div(&x, &y))? {
+        Some(v) => ctx(eq_bi(&v, &tq), "<BigInt as CheckedDiv>::checked_div")?,
+        None => return Err("<BigInt as CheckedDiv>::checked_div returned None for a non-zero divisor".into()),
     }
     // flooring: r = 0 or sign(r) = sign(b)
     let (q, r) = must_return("BigInt::div_mod_floor", || x.div_mod_floor(&y))?;
@@ -351,7 +357,7 @@ impl Property for C03 {
     fn budget(&self, tier: Tier) -> Budget {
         match tier {
             Tier::Quick => Budget { release: 2_400_000, dbg: 800_000, workers: 8 },
-            Tier::Thorough => Budget { release: 24_000_000, dbg: 6_000_000, workers: 16 },
+            Tier::Thorough => Budget { release: 90_000_000, dbg: 24_000_000, workers: 16 },
         }
     }
     fn probes(&self) -> Vec<Probe> {
